@@ -280,58 +280,213 @@ theorem FilesAt.left {files a b i0} (h : FilesAt files (a ++ b) i0) : FilesAt fi
 def streamFiles (es : List Entry) : List (Str × Bytes) := (es.filter (·.hasStream)).map fun e => (e.name, e.data)
 def emptyFiles (es : List Entry) : List (Str × Bytes) := (es.filter (·.isEmptyFile)).map fun e => (e.name, [])
 
-theorem cutFiles_spec (files : List FileInfo) : ∀ (es : List Entry) (i0 : Nat) (x y : Bytes), FilesAt files es i0 →
-    cutFiles files (streamIdx es i0) x.length (x ++ streamData es ++ y) = .ok (streamFiles es) := by
+/-- the non-empty files among `es` (listed from index `i` on) that are requested (`w` on the index in `list()`) -/
+def streamFilesW (w : Nat → Bool) : List Entry → Nat → List (Str × Bytes)
+  | [], _ => []
+  | e :: es, i => if e.hasStream && w i then (e.name, e.data) :: streamFilesW w es (i + 1) else streamFilesW w es (i + 1)
+
+/-- the requested empty files -/
+def emptyFilesW (w : Nat → Bool) : List Entry → Nat → List (Str × Bytes)
+  | [], _ => []
+  | e :: es, i => if e.isEmptyFile && w i then (e.name, []) :: emptyFilesW w es (i + 1) else emptyFilesW w es (i + 1)
+
+/-- every requested non-empty file of `es` ends (at running offset `off` + its own size) within `n` -/
+def EndsWithin (w : Nat → Bool) : List Entry → Nat → Nat → Nat → Prop
+  | [], _, _, _ => True
+  | e :: es, i, off, n =>
+    if e.hasStream then (w i = true → off + e.data.length ≤ n) ∧ EndsWithin w es (i + 1) (off + e.data.length) n
+    else EndsWithin w es (i + 1) off n
+
+theorem slice_take (x d rest : Bytes) (n : Nat) (h : x.length + d.length ≤ n) :
+    (((x ++ d ++ rest).take n).drop x.length).take d.length = d := by
+  rw [List.drop_take, show x ++ d ++ rest = x ++ (d ++ rest) by simp, List.drop_left, List.take_take,
+    Nat.min_eq_left (by omega), List.take_left]
+
+theorem hasStream_not_dir {e : Entry} (h : e.hasStream = true) : e.isDir = false := by
+  unfold Entry.hasStream at h
+  cases hh : e.isDir <;> simp_all
+
+theorem cutFiles_gen (files : List FileInfo) (wanted : Option (List Nat)) :
+    ∀ (es : List Entry) (i0 : Nat) (x y : Bytes) (n : Nat), FilesAt files es i0 →
+      EndsWithin (isWanted wanted) es i0 x.length n →
+      cutFiles files wanted (streamIdx es i0) x.length ((x ++ streamData es ++ y).take n)
+        = .ok (streamFilesW (isWanted wanted) es i0) := by
   intro es
   induction es with
-  | nil => intro i0 x y _; simp [streamIdx, cutFiles, streamFiles]
+  | nil => intro i0 x y n _ _; simp [streamIdx, cutFiles, streamFilesW]
   | cons e es ih =>
-    intro i0 x y h
+    intro i0 x y n h hin
     have ht := h.tail
     cases he : e.hasStream with
     | false =>
-      have := ih (i0 + 1) x y ht
-      simpa [streamIdx, he, streamData, streamFiles, List.filter_cons] using this
+      simp only [EndsWithin, he, Bool.false_eq_true, if_false] at hin
+      have := ih (i0 + 1) x y n ht hin
+      simpa [streamIdx, he, streamData, streamFilesW, List.filter_cons] using this
     | true =>
+      simp only [EndsWithin, he, if_true] at hin
+      obtain ⟨hhead, htail⟩ := hin
       obtain ⟨f, hf, hn, hu, hd⟩ := h 0 e (by simp)
-      have hdir : e.isDir = false := by
-        unfold Entry.hasStream at he
-        cases hh : e.isDir <;> simp_all
+      have hdir : e.isDir = false := hasStream_not_dir he
       have hsd : streamData (e :: es) = e.data ++ streamData es := by simp [streamData, List.filter_cons, he]
-      have := ih (i0 + 1) (x ++ e.data) y ht
-      simp only [List.length_append] at this
+      have hD : x ++ (e.data ++ streamData es) ++ y = x ++ e.data ++ streamData es ++ y := by simp
+      have ih' := ih (i0 + 1) (x ++ e.data) y n ht (by simpa using htail)
+      simp only [List.length_append] at ih'
       simp only [streamIdx, he, if_true, cutFiles, Nat.add_zero] at hf ⊢
       rw [hf]
-      simp only [hd, hdir, Bool.false_eq_true, if_false, hu, hsd]
-      rw [show x ++ (e.data ++ streamData es) ++ y = x ++ e.data ++ streamData es ++ y by simp]
-      rw [this]
-      have hlen : ¬ (x.length + e.data.length > (x ++ e.data ++ streamData es ++ y).length) := by
-        simp only [List.length_append]; omega
-      simp only [hlen, if_false]
-      have hcut : ((x ++ e.data ++ streamData es ++ y).drop x.length).take e.data.length = e.data := by
-        rw [show x ++ e.data ++ streamData es ++ y = x ++ (e.data ++ (streamData es ++ y)) by simp]
-        rw [List.drop_left, List.take_left]
-      rw [hcut]
-      simp [streamFiles, List.filter_cons, he, hn]
+      simp only [hd, hdir, Bool.false_eq_true, if_false, hu, hsd, hD]
+      cases hw : isWanted wanted i0 with
+      | false =>
+        simp only [Bool.not_false, if_true, ih']
+        simp [streamFilesW, he, hw]
+      | true =>
+        have hle := hhead hw
+        have hlen : ¬ (x.length + e.data.length > ((x ++ e.data ++ streamData es ++ y).take n).length) := by
+          simp only [List.length_take, List.length_append]; omega
+        simp only [Bool.not_true, Bool.false_eq_true, if_false, hlen, ih']
+        have hcut := slice_take x e.data (streamData es ++ y) n hle
+        rw [show x ++ e.data ++ (streamData es ++ y) = x ++ e.data ++ streamData es ++ y by simp] at hcut
+        rw [hcut]
+        simp [streamFilesW, he, hw, hn]
 
 def emptyIdx : List Entry → Nat → List Nat
   | [], _ => []
   | e :: es, i => if e.isEmptyFile then i :: emptyIdx es (i + 1) else emptyIdx es (i + 1)
 
-theorem emptyWrites_spec (files : List FileInfo) : ∀ (es : List Entry) (i0 : Nat), FilesAt files es i0 →
-    emptyWrites files (emptyIdx es i0) = .ok (emptyFiles es) := by
+theorem emptyWrites_gen (files : List FileInfo) (wanted : Option (List Nat)) :
+    ∀ (es : List Entry) (i0 : Nat), FilesAt files es i0 →
+      emptyWrites files wanted (emptyIdx es i0) = .ok (emptyFilesW (isWanted wanted) es i0) := by
   intro es
   induction es with
-  | nil => intro i0 _; simp [emptyIdx, emptyWrites, emptyFiles]
+  | nil => intro i0 _; simp [emptyIdx, emptyWrites, emptyFilesW]
   | cons e es ih =>
     intro i0 h
     have := ih (i0 + 1) h.tail
     cases he : e.isEmptyFile with
-    | false => simpa [emptyIdx, he, emptyFiles, List.filter_cons] using this
+    | false => simpa [emptyIdx, he, emptyFilesW] using this
     | true =>
       obtain ⟨f, hf, hn, _, _⟩ := h 0 e (by simp)
       simp only [Nat.add_zero] at hf
-      simp [emptyIdx, he, emptyWrites, hf, this, emptyFiles, List.filter_cons, hn]
+      cases hw : isWanted wanted i0 <;> simp [emptyIdx, he, emptyWrites, hf, this, emptyFilesW, hn, hw]
+
+/-! ### `_needed_output` -/
+
+/-- what `_needed_output` computes, on the entries -/
+def specNeeded (w : List Nat) : List Entry → Nat → Nat → Option Nat → Option Nat
+  | [], _, _, acc => acc
+  | e :: es, i, off, acc =>
+    if e.hasStream then
+      specNeeded w es (i + 1) (off + e.data.length) (if w.contains i then some (off + e.data.length) else acc)
+    else specNeeded w es (i + 1) off acc
+
+theorem neededLoop_spec (files : List FileInfo) (w : List Nat) :
+    ∀ (es : List Entry) (i0 off : Nat) (acc : Option Nat), FilesAt files es i0 →
+      neededLoop files w (streamIdx es i0) off acc = .ok (specNeeded w es i0 off acc) := by
+  intro es
+  induction es with
+  | nil => intro i0 off acc _; simp [streamIdx, neededLoop, specNeeded]
+  | cons e es ih =>
+    intro i0 off acc h
+    cases he : e.hasStream with
+    | false => simpa [streamIdx, he, specNeeded] using ih (i0 + 1) off acc h.tail
+    | true =>
+      obtain ⟨f, hf, _, hu, hd⟩ := h 0 e (by simp)
+      simp only [Nat.add_zero] at hf
+      have hdir : e.isDir = false := hasStream_not_dir he
+      simp only [streamIdx, he, if_true, neededLoop, hf, hd, hdir, Bool.false_eq_true, if_false, hu, specNeeded]
+      exact ih (i0 + 1) _ _ h.tail
+
+theorem specNeeded_some_ne (w : List Nat) : ∀ (es : List Entry) (i off a : Nat), specNeeded w es i off (some a) ≠ none := by
+  intro es
+  induction es with
+  | nil => intro i off a; simp [specNeeded]
+  | cons e es ih =>
+    intro i off a
+    unfold specNeeded
+    split
+    · split <;> exact ih _ _ _
+    · exact ih _ _ _
+
+theorem specNeeded_some (w : List Nat) : ∀ (es : List Entry) (i off : Nat) (acc : Option Nat) (m : Nat),
+    specNeeded w es i off acc = some m → (∀ a, acc = some a → a ≤ off) →
+      (∀ a, acc = some a → a ≤ m) ∧ EndsWithin (isWanted (some w)) es i off m := by
+  intro es
+  induction es with
+  | nil =>
+    intro i off acc m h _
+    simp only [specNeeded] at h
+    exact ⟨fun a ha => by rw [h] at ha; cases ha; exact Nat.le_refl _, trivial⟩
+  | cons e es ih =>
+    intro i off acc m h hacc
+    unfold specNeeded at h
+    cases he : e.hasStream with
+    | false =>
+      simp only [he, Bool.false_eq_true, if_false] at h
+      have := ih (i + 1) off acc m h hacc
+      exact ⟨this.1, by simpa [EndsWithin, he] using this.2⟩
+    | true =>
+      simp only [he, if_true] at h
+      cases hw : w.contains i with
+      | false =>
+        simp only [hw, Bool.false_eq_true, if_false] at h
+        have := ih (i + 1) _ acc m h (fun a ha => by have := hacc a ha; omega)
+        refine ⟨this.1, ?_⟩
+        simp only [EndsWithin, he, if_true]
+        have hni : ¬ i ∈ w := by
+          intro hm
+          have hc : w.contains i = true := by simp [hm]
+          rw [hw] at hc; cases hc
+        exact ⟨fun hc => by simp [isWanted, hni] at hc, this.2⟩
+      | true =>
+        simp only [hw, if_true] at h
+        have := ih (i + 1) _ _ m h (fun a ha => by cases ha; exact Nat.le_refl _)
+        have hm := this.1 _ rfl
+        refine ⟨fun a ha => by have := hacc a ha; omega, ?_⟩
+        simp only [EndsWithin, he, if_true]
+        exact ⟨fun _ => hm, this.2⟩
+
+theorem specNeeded_none (w : List Nat) : ∀ (es : List Entry) (i off : Nat),
+    specNeeded w es i off none = none → streamFilesW (isWanted (some w)) es i = [] := by
+  intro es
+  induction es with
+  | nil => intro i off _; rfl
+  | cons e es ih =>
+    intro i off h
+    unfold specNeeded at h
+    cases he : e.hasStream with
+    | false =>
+      simp only [he, Bool.false_eq_true, if_false] at h
+      simpa [streamFilesW, he] using ih (i + 1) off h
+    | true =>
+      simp only [he, if_true] at h
+      cases hw : w.contains i with
+      | false =>
+        simp only [hw, Bool.false_eq_true, if_false] at h
+        have hni : ¬ i ∈ w := by
+          intro hm
+          have hc : w.contains i = true := by simp [hm]
+          rw [hw] at hc; cases hc
+        simpa [streamFilesW, he, isWanted, hni] using ih (i + 1) _ h
+      | true =>
+        simp only [hw, if_true] at h
+        exact absurd h (specNeeded_some_ne w es _ _ _)
+
+theorem endsWithin_all (w : Nat → Bool) : ∀ (es : List Entry) (i off n : Nat), off + (streamData es).length ≤ n →
+    EndsWithin w es i off n := by
+  intro es
+  induction es with
+  | nil => intro i off n _; trivial
+  | cons e es ih =>
+    intro i off n h
+    cases he : e.hasStream with
+    | false =>
+      have hsd : streamData (e :: es) = streamData es := by simp [streamData, List.filter_cons, he]
+      rw [hsd] at h
+      simpa [EndsWithin, he] using ih (i + 1) off n h
+    | true =>
+      have hsd : streamData (e :: es) = e.data ++ streamData es := by simp [streamData, List.filter_cons, he]
+      rw [hsd, List.length_append] at h
+      simp only [EndsWithin, he, if_true]
+      exact ⟨fun _ => by omega, ih (i + 1) _ n (by omega)⟩
 
 theorem skipItems_info (attr : Entry → Nat) (es : List Entry) (i : Nat) :
     skipItems (es.map (info attr)) i = itemsFrom es i := by
@@ -357,15 +512,17 @@ theorem emptyIdxLoop_info (attr : Entry → Nat) (es : List Entry) (i : Nat) :
 /-! ### the folder loop of `extractall` -/
 
 /-- what the layout theorem needs of one folder: it holds at least one file, its pack stream is not empty,
-    and its coder decodes its pack stream to the concatenation of its files -/
+    and its coder decodes its pack stream to the concatenation of its files — to the first `m` bytes of it
+    when asked for at most `m` -/
 structure GroupOk (ids : Ids) (c : Codec) (g : Group) : Prop where
   streams : streamCount g.entries ≥ 1
   packed_ne : g.packed ≠ []
-  decodes : applyDecoder ids c g.coder g.packed [(streamData g.entries).length] = .ok (streamData g.entries)
+  decodes : ∀ mo, applyDecoder ids c g.coder g.packed [(streamData g.entries).length] mo
+      = .ok (capTo mo (streamData g.entries))
 
-theorem decompress_group (ids : Ids) (c : Codec) (g : Group) (hg : GroupOk ids c g) (a b : Bytes) :
-    decompressFolder ids c (a ++ g.packed ++ b) g.folder a.length [g.packed.length]
-      = .ok (streamData g.entries) := by
+theorem decompress_group (ids : Ids) (c : Codec) (g : Group) (hg : GroupOk ids c g) (a b : Bytes) (mo : Option Nat) :
+    decompressFolder ids c (a ++ g.packed ++ b) g.folder a.length [g.packed.length] mo
+      = .ok (capTo mo (streamData g.entries)) := by
   have hne : g.packed.length ≠ 0 := by
     have := hg.packed_ne
     intro h; exact this (List.length_eq_zero_iff.mp h)
@@ -384,23 +541,62 @@ theorem sum_map_length (gs : List Group) : (gs.map (·.packed.length)).sum = (gs
   | nil => rfl
   | cons g gs ih => simp only [List.map_cons, List.sum_cons, List.flatMap_cons, List.length_append, ih]
 
+theorem streamFilesW_append (w : Nat → Bool) (a b : List Entry) (i : Nat) :
+    streamFilesW w (a ++ b) i = streamFilesW w a i ++ streamFilesW w b (i + a.length) := by
+  induction a generalizing i with
+  | nil => simp [streamFilesW]
+  | cons e a ih =>
+    simp only [List.cons_append, streamFilesW, ih, List.length_cons]
+    rw [show i + 1 + a.length = i + (a.length + 1) by omega]
+    split <;> simp
+
+/-- one folder of the loop: skipped when nothing is requested from it, otherwise decoded up to the end of its
+    last requested file and cut -/
+theorem folder_step (ids : Ids) (c : Codec) (files : List FileInfo) (wanted : Option (List Nat)) (g : Group)
+    (hg : GroupOk ids c g) (i0 : Nat) (hF : FilesAt files g.entries i0) (a b : Bytes) :
+    (folderCap files wanted (streamIdx g.entries i0) = .ok none ∧ streamFilesW (isWanted wanted) g.entries i0 = [])
+    ∨ ∃ mo, folderCap files wanted (streamIdx g.entries i0) = .ok (some mo)
+        ∧ ∃ dec, decompressFolder ids c (a ++ g.packed ++ b) g.folder a.length [g.packed.length] mo = .ok dec
+          ∧ cutFiles files wanted (streamIdx g.entries i0) 0 dec = .ok (streamFilesW (isWanted wanted) g.entries i0) := by
+  cases wanted with
+  | none =>
+    right
+    refine ⟨none, rfl, _, decompress_group ids c g hg a b none, ?_⟩
+    have hE := endsWithin_all (isWanted none) g.entries i0 0 (streamData g.entries).length (by omega)
+    have := cutFiles_gen files none g.entries i0 [] [] (streamData g.entries).length hF hE
+    simpa [capTo] using this
+  | some w =>
+    have hN := neededLoop_spec files w g.entries i0 0 none hF
+    cases hs : specNeeded w g.entries i0 0 none with
+    | none =>
+      left
+      exact ⟨by simp [folderCap, hN, hs], specNeeded_none w g.entries i0 0 hs⟩
+    | some m =>
+      right
+      refine ⟨some m, by simp [folderCap, hN, hs], _, decompress_group ids c g hg a b (some m), ?_⟩
+      have hE := (specNeeded_some w g.entries i0 0 none m hs (by intro a ha; cases ha)).2
+      have := cutFiles_gen files (some w) g.entries i0 [] [] m hF hE
+      simpa [capTo] using this
+
 theorem runPlan_spec (ids : Ids) (c : Codec) (G : List Group) (tail : List Entry) (r : R) (pre post : Bytes) (pp : Nat)
+    (wanted : Option (List Nat))
     (hps : r.packSizes = G.map (·.packed.length)) (hpre : pre.length = pp)
     (hdict : ∀ a g b, G = a ++ g :: b →
       dictGet r.folderToFiles a.length = some (streamIdx g.entries (a.flatMap (·.entries)).length))
     (hfiles : FilesAt r.files (allEntries G tail) 0) :
     ∀ (gs done : List Group), G = done ++ gs → (∀ g ∈ gs, GroupOk ids c g) →
-      runPlan ids c (pre ++ G.flatMap (·.packed) ++ post) r
+      runPlan ids c (pre ++ G.flatMap (·.packed) ++ post) r wanted
           (folderPlan r.packSizes pp (gs.map Group.folder) done.length done.length)
-        = .ok (gs.flatMap fun g => streamFiles g.entries) := by
+        = .ok (streamFilesW (isWanted wanted) (gs.flatMap (·.entries)) (done.flatMap (·.entries)).length) := by
   intro gs
   induction gs with
-  | nil => intro done _ _; simp [folderPlan, runPlan]
+  | nil => intro done _ _; simp [folderPlan, runPlan, streamFilesW]
   | cons g gs ih =>
     intro done hG hok
     have hg := hok g (List.mem_cons_self ..)
     have ih' := ih (done ++ [g]) (by simp [hG]) (fun x hx => hok x (List.mem_cons_of_mem _ hx))
-    simp only [List.length_append, List.length_singleton] at ih'
+    simp only [List.length_append, List.length_singleton, List.flatMap_append, List.flatMap_cons, List.flatMap_nil,
+      List.append_nil] at ih'
     have hA : (r.packSizes.take done.length).sum = (done.flatMap (·.packed)).length := by
       rw [hps, hG, List.map_append, List.take_left' (by simp), sum_map_length]
     have hB : (r.packSizes.drop done.length).take 1 = [g.packed.length] := by
@@ -417,16 +613,18 @@ theorem runPlan_spec (ids : Ids) (c : Codec) (G : List Group) (tail : List Entry
       rw [h1] at hfiles
       have := hfiles.right.left
       simpa using this
-    have hcut := cutFiles_spec r.files g.entries _ [] [] hF
-    simp only [List.length_nil, List.nil_append, List.append_nil] at hcut
-    simp only [List.map_cons, folderPlan, runPlan, hdict done g gs hG, hA, hB, Group.folder]
+    simp only [List.map_cons, folderPlan, runPlan, hdict done g gs hG, hA, hB, Group.folder, List.flatMap_cons,
+      streamFilesW_append]
     rw [hfile, hpos]
-    have hdec := decompress_group ids c g hg (pre ++ done.flatMap (·.packed)) (gs.flatMap (·.packed) ++ post)
-    simp only [Group.folder] at hdec
-    rw [hdec]
-    simp only [hcut]
-    rw [← hfile, ih']
-    simp
+    rcases folder_step ids c r.files wanted g hg _ hF (pre ++ done.flatMap (·.packed)) (gs.flatMap (·.packed) ++ post)
+      with ⟨hcap, hnil⟩ | ⟨mo, hcap, dec, hdec, hcut⟩
+    · rw [hcap]
+      simp only [hnil, List.nil_append]
+      rw [← hfile, ih']
+    · simp only [Group.folder] at hdec
+      rw [hcap]
+      simp only [hdec, hcut]
+      rw [← hfile, ih']
 
 theorem streamIdx_length (es : List Entry) (i : Nat) : (streamIdx es i).length = streamCount es := by
   induction es generalizing i with
@@ -451,5 +649,122 @@ theorem streamFiles_all (gs : List Group) (tail : List Entry) (h : ∀ e ∈ tai
   induction gs with
   | nil => rfl
   | cons g gs ih => simp [streamFiles_append, ih]
+
+/-! ### requested-subset views -/
+
+theorem streamFilesW_streamless (w : Nat → Bool) (es : List Entry) (i : Nat) (h : ∀ e ∈ es, e.hasStream = false) :
+    streamFilesW w es i = [] := by
+  induction es generalizing i with
+  | nil => rfl
+  | cons e es ih =>
+    have he := h e (List.mem_cons_self ..)
+    simp [streamFilesW, he, ih (i + 1) (fun x hx => h x (List.mem_cons_of_mem _ hx))]
+
+theorem streamFilesW_all (w : Nat → Bool) (gs : List Group) (tail : List Entry) (h : ∀ e ∈ tail, e.hasStream = false) :
+    streamFilesW w (allEntries gs tail) 0 = streamFilesW w (gs.flatMap (·.entries)) 0 := by
+  unfold allEntries
+  rw [streamFilesW_append, streamFilesW_streamless w tail _ h, List.append_nil]
+
+/-- with `members=None` every entry is requested -/
+theorem streamFilesW_none (es : List Entry) (i : Nat) : streamFilesW (isWanted none) es i = streamFiles es := by
+  induction es generalizing i with
+  | nil => rfl
+  | cons e es ih =>
+    cases he : e.hasStream <;> simp [streamFilesW, streamFiles, List.filter_cons, he, isWanted, ih (i + 1)] <;>
+      simp [streamFiles]
+
+theorem emptyFilesW_none (es : List Entry) (i : Nat) : emptyFilesW (isWanted none) es i = emptyFiles es := by
+  induction es generalizing i with
+  | nil => rfl
+  | cons e es ih =>
+    cases he : e.isEmptyFile <;> simp [emptyFilesW, emptyFiles, List.filter_cons, he, isWanted, ih (i + 1)] <;>
+      simp [emptyFiles]
+
+/-- indices (from `i` on) of the entries satisfying `p` -/
+def keepIdx (p : Entry → Bool) : List Entry → Nat → List Nat
+  | [], _ => []
+  | e :: es, i => if p e then i :: keepIdx p es (i + 1) else keepIdx p es (i + 1)
+
+theorem keepIdx_ge (p : Entry → Bool) (es : List Entry) (i : Nat) : ∀ j ∈ keepIdx p es i, i ≤ j := by
+  induction es generalizing i with
+  | nil => intro j hj; simp [keepIdx] at hj
+  | cons e es ih =>
+    intro j hj
+    unfold keepIdx at hj
+    split at hj
+    · rcases List.mem_cons.mp hj with rfl | h
+      · exact Nat.le_refl _
+      · have := ih (i + 1) j h; omega
+    · have := ih (i + 1) j hj; omega
+
+theorem streamFilesW_congr (w1 w2 : Nat → Bool) (es : List Entry) (i : Nat) (h : ∀ j, i ≤ j → w1 j = w2 j) :
+    streamFilesW w1 es i = streamFilesW w2 es i := by
+  induction es generalizing i with
+  | nil => rfl
+  | cons e es ih =>
+    simp only [streamFilesW, h i (Nat.le_refl _), ih (i + 1) (fun j hj => h j (by omega))]
+
+theorem emptyFilesW_congr (w1 w2 : Nat → Bool) (es : List Entry) (i : Nat) (h : ∀ j, i ≤ j → w1 j = w2 j) :
+    emptyFilesW w1 es i = emptyFilesW w2 es i := by
+  induction es generalizing i with
+  | nil => rfl
+  | cons e es ih =>
+    simp only [emptyFilesW, h i (Nat.le_refl _), ih (i + 1) (fun j hj => h j (by omega))]
+
+theorem contains_keepIdx_cons (p : Entry → Bool) (es : List Entry) (i : Nat) :
+    ¬ i ∈ keepIdx p es (i + 1) := by
+  intro hm
+  have := keepIdx_ge p es (i + 1) i hm
+  omega
+
+/-- requesting exactly the entries that satisfy `p` writes exactly the files of the `p`-filtered entry list -/
+theorem streamFilesW_keepIdx (p : Entry → Bool) (es : List Entry) (i : Nat) :
+    streamFilesW (isWanted (some (keepIdx p es i))) es i = streamFiles (es.filter p) := by
+  induction es generalizing i with
+  | nil => rfl
+  | cons e es ih =>
+    have hc := contains_keepIdx_cons p es i
+    have htail : ∀ (l : List Nat), (∀ j, i + 1 ≤ j → (isWanted (some l)) j = (isWanted (some (keepIdx p es (i + 1)))) j) →
+        streamFilesW (isWanted (some l)) es (i + 1) = streamFiles (es.filter p) := by
+      intro l hl
+      rw [streamFilesW_congr _ _ es (i + 1) hl, ih (i + 1)]
+    cases hp : p e with
+    | false =>
+      simp only [keepIdx, hp, Bool.false_eq_true, if_false, streamFilesW, List.filter_cons]
+      have hw : isWanted (some (keepIdx p es (i + 1))) i = false := by simp [isWanted, hc]
+      simp only [hw, Bool.and_false, Bool.false_eq_true, if_false]
+      exact ih (i + 1)
+    | true =>
+      simp only [keepIdx, hp, if_true, streamFilesW, List.filter_cons]
+      have hw : isWanted (some (i :: keepIdx p es (i + 1))) i = true := by simp [isWanted]
+      have ht := htail (i :: keepIdx p es (i + 1)) (by
+        intro j hj
+        have : ¬ j = i := by omega
+        simp [isWanted, List.contains_cons, this])
+      rw [hw, ht]
+      cases he : e.hasStream <;> simp [streamFiles, List.filter_cons, he]
+
+theorem emptyFilesW_keepIdx (p : Entry → Bool) (es : List Entry) (i : Nat) :
+    emptyFilesW (isWanted (some (keepIdx p es i))) es i = emptyFiles (es.filter p) := by
+  induction es generalizing i with
+  | nil => rfl
+  | cons e es ih =>
+    have hc := contains_keepIdx_cons p es i
+    cases hp : p e with
+    | false =>
+      simp only [keepIdx, hp, Bool.false_eq_true, if_false, emptyFilesW, List.filter_cons]
+      have hw : isWanted (some (keepIdx p es (i + 1))) i = false := by simp [isWanted, hc]
+      simp only [hw, Bool.and_false, Bool.false_eq_true, if_false]
+      exact ih (i + 1)
+    | true =>
+      simp only [keepIdx, hp, if_true, emptyFilesW, List.filter_cons]
+      have hw : isWanted (some (i :: keepIdx p es (i + 1))) i = true := by simp [isWanted]
+      have ht : emptyFilesW (isWanted (some (i :: keepIdx p es (i + 1)))) es (i + 1) = emptyFiles (es.filter p) := by
+        rw [emptyFilesW_congr _ (isWanted (some (keepIdx p es (i + 1)))) es (i + 1) (by
+          intro j hj
+          have : ¬ j = i := by omega
+          simp [isWanted, List.contains_cons, this]), ih (i + 1)]
+      rw [hw, ht]
+      cases he : e.isEmptyFile <;> simp [emptyFiles, List.filter_cons, he]
 
 end S2T.SevenZip
